@@ -60,7 +60,7 @@ def run(prop, tier, seed):
                               hflags=["-DSEQ_DB=%d" % d, "-DSEQ_KEY=%d" % k]))
     exes = vlib.build_many(specs)
     tdir = check_seq.trace_dir(prop)
-    runs, histories, ops = (1, 10, 100) if tier == "quick" else (6, 10, 250)
+    runs, histories, ops = (1, 11, 100) if tier == "quick" else (6, 11, 250)
     jobs = []
     i = 0
     for c in cfgs:
